@@ -200,6 +200,7 @@ class FixedBearer:
         self.rx: list[bytes] = []
         self.pairing = ra.Pairing('att', ra.DEFAULT_MTU)
         self.bumble_bearer = hs.server_conn
+        self.dead = False
 
     def send(self, pdu: bytes, label: str = ''):
         self.pairing.client(pdu, label)
@@ -228,6 +229,8 @@ class EattBearer:
         self.pairing = None
         self.bumble_bearer = None
         self.ident = 0x20
+        self.dead = False
+        self.server_writes: list[bytes] = []   # ATT PDUs the server handed to the channel, not yet seen
 
     def next_ident(self):
         self.ident = self.ident % 255 + 1
@@ -273,10 +276,49 @@ class EattBearer:
                 r.bad('eatt/sdu-overrun', f'SDU announces {self._need} bytes, carries {len(sdu)}')
             if len(sdu) > self.my_mtu:
                 r.bad('eatt/l2cap-mtu-exceeded', f'SDU of {len(sdu)} bytes > my L2CAP MTU {self.my_mtu}')
-            self.rx.append(sdu)
-            self.pairing.server(sdu, r, self.hs.ctx)
+            self.deliver(sdu)
         if self.granted < 8:
             self.grant(64)
+
+
+    def deliver(self, sdu: bytes):
+        """One SDU = one ATT PDU (Part G 5.3.2 / Part A 3.4: SDU boundaries are message
+        boundaries). The tap on the server channel's write() is only used to *name* what went
+        wrong when an SDU is not one PDU the server wrote: several PDUs merged into one SDU, or
+        one PDU split over several SDUs because it exceeds the L2CAP MTU."""
+        r = self.hs.r
+        w = self.server_writes
+        if w and sdu == w[0]:
+            w.pop(0)
+        elif w and len(w) >= 2 and sdu.startswith(w[0]):
+            acc, k = b'', 0
+            while k < len(w) and len(acc) < len(sdu):
+                acc += w[k]
+                k += 1
+            if acc == sdu:
+                r.bad('eatt/pdus-merged-into-one-sdu',
+                      f'{k} ATT PDUs ({[p[:6].hex() for p in w[:k]]}) arrived as one SDU of {len(sdu)} bytes on an '
+                      f'enhanced bearer; server had no credits when it wrote them; {self.hs.ctx}')
+                parts = w[:k]
+                del w[:k]
+                for p in parts:      # judge the pairing as if boundaries had been kept
+                    self.rx.append(p)
+                    self.pairing.server(p, r, self.hs.ctx)
+                return
+        elif w and len(sdu) < len(w[0]) and w[0].startswith(sdu):
+            # first piece of a PDU larger than my L2CAP MTU: report the whole PDU once
+            whole = w[0]
+            self._split_left = len(whole) - len(sdu)
+            self.rx.append(whole)
+            self.pairing.server(whole, r, self.hs.ctx + ' (PDU split over several SDUs)')
+            return
+        elif w and getattr(self, '_split_left', 0) > 0:
+            self._split_left -= len(sdu)
+            if self._split_left <= 0:
+                w.pop(0)
+            return
+        self.rx.append(sdu)
+        self.pairing.server(sdu, r, self.hs.ctx)
 
 
 class Harness:
@@ -294,6 +336,7 @@ class Harness:
         self.eatt: list[EattBearer] = []
         self.by_handle = {m.handle: m for m in models}
         self.other_cid_pdus = 0
+        self._probing = False
         raw.handlers.append(self._on_pdu)
 
     # -- construction ---------------------------------------------------------
@@ -371,7 +414,15 @@ class Harness:
         # Part G 5.3.1: ATT_MTU of an enhanced bearer = min of the two MTU fields, fixed
         b.pairing = ra.Pairing('eatt', min(my_mtu, mtu), mtu_fixed=True)
         chans = self.device.l2cap_channel_manager.le_coc_channels.get(self.server_conn.handle, {})
-        b.bumble_bearer = chans.get(my_cid)
+        b.bumble_bearer = ch = chans.get(my_cid)
+        if ch is not None:
+            real_write = ch.write
+
+            def tapped_write(data, _b=b, _real=real_write):
+                if data:
+                    _b.server_writes.append(bytes(data))
+                return _real(data)
+            ch.write = tapped_write
         self.eatt.append(b)
         await self.rg.quiesce()
         return b
@@ -394,19 +445,39 @@ class Harness:
             await asyncio.sleep(31)
             await self.rg.quiesce()
 
-    async def exchange(self, bearer, pdu: bytes, label: str = '', ctx: str = ''):
+    async def exchange(self, bearer, pdu: bytes, label: str = '', ctx: str = '', wait: bool = True):
         """One client PDU in its own window. Returns the server PDUs that arrived."""
-        return await self.burst(bearer, [(pdu, label)], ctx)
+        return await self.burst(bearer, [(pdu, label)], ctx, wait)
 
-    async def burst(self, bearer, pdus, ctx: str = ''):
+    async def burst(self, bearer, pdus, ctx: str = '', wait: bool = True):
         self.ctx = ctx
         start = len(bearer.rx)
+        exc_before = len(self.rg.exceptions)
         for pdu, label in pdus:
             bearer.send(pdu, label)
-        await self.settle()
+        if wait:
+            await self.settle()
+        else:
+            await self.rg.quiesce()
         for b in self.bearers:
-            b.pairing.close(self.r, ctx)
+            if b.pairing.close(self.r, ctx):
+                # a request timed out: for a client this bearer is finished (Part F 3.3.3)
+                b.dead = True
+        if len(self.rg.exceptions) > exc_before and not bearer.dead and not self._probing:
+            # something in that window made the stack raise: "the next request after garbage"
+            # must still be answered (handle 3 = Device Name of the built-in GAP service)
+            self._probing = True
+            self.r.ev('probes_after_stack_exception')
+            try:
+                await self.burst(bearer, [(ra.read(3), 'after-stack-exception')],
+                                 f'probe after a window that raised {self.rg.exceptions[-1][1][:80]}; ' + ctx)
+            finally:
+                self._probing = False
         return bearer.rx[start:]
+
+    @property
+    def alive(self):
+        return [b for b in self.bearers if not b.dead]
 
     async def finish(self):
         """Late replies, stack exceptions, and a cross-check of what the RawPeer saw
